@@ -3,6 +3,7 @@ import re
 from .core import common
 from .core.mir import op_local, op_place, strip_generics, callee_name
 from .core.cond import all_tests
+from .core.slicing import origins
 from .core.symexpr import expr, show, strip_refs
 from . import fmtfeat
 
@@ -156,6 +157,30 @@ def check_range_builders(ctx, facts):
             else:
                 ctx.violate("C16.2", F, "range-builder-differs:" + n, b.relfile, s_.line,
                             "range builder `%s` computes the %s of a planned range as %s; the siblings compute %s" % (n, k, c, want))
+    # the file each submitted range is read from (written to) is the file of that range's own block: the descriptor handed
+    # to opcode::Read::new / Write::new depends on the plan element of the very iteration that builds the operation. The
+    # mmap siblings go through `blk.mmap` of the element by construction; a descriptor resolved once per submission reads
+    # the later ranges of a plan that spans two files from the first file
+    n_fd = 0
+    for fn_ in ("batch_read_for_topic", "writer::Writer::submit_batch_via_io_uring"):
+        try:
+            hb = facts.body(fn_)
+        except Exception:
+            continue
+        for s_ in hb.calls(re.compile(r"opcode::(Read|Write)::new$")):
+            n_fd += 1
+            F = common.short_fn(hb.name)
+            hbk, L = hb.enclosing_loop(s_.bb)
+            src_, _, trav = origins(hb, s_.node["args"][0], follow_all_calls=True)
+            per_elem = any(x.idx == "term" and (L is None or x.bb in L) and hb.dominates(x.bb, s_.bb) and re.search(r"Iterator>?::next$", strip_generics(x.node.get("callee") or "")) for x in trav)
+            if per_elem:
+                ctx.ok("C16.2", F, "the descriptor of each submitted range comes from that range's own plan element", hb.relfile, s_.line)
+            else:
+                ctx.violate("C16.2", F, "descriptor-not-of-the-range's-own-block", hb.relfile, s_.line,
+                            "the file descriptor handed to %s does not depend on the plan element of the iteration that builds the operation: when a plan spans two WAL files the "
+                            "later ranges are read from (written to) the first file at the right offsets - the mmap backend, which goes through each block's own mapping, delivers "
+                            "the right bytes" % callee_name(s_.node).split("::")[-2])
+    ctx.floor("C16.2", "io_uring operations built per planned range", n_fd, 2)
     ctx.floor("C16.2", "range buffer sizes in batch_read_for_topic", n_size, 1)
     ctx.floor("C16.2", "positional (mmap / pread) range offsets in batch_read_for_topic", n_pos, 1)
     ctx.floor("C16.2", "io_uring range offsets in batch_read_for_topic", n_ring, 1)
